@@ -210,7 +210,8 @@ theorem execD_ld1p_lane (b d i gb dv : Nat) (bs : List Nat) (hi : i < 4)
     execD ⟨g, v, mem, syms, frame⟩ (ins .VLD1P [M b 4, R d] [.none, .S i])
       = .ok ⟨g.set b ((gb + 4) % 2 ^ 64), v.set d (setLaneS i dv (unlanes 8 bs)), mem, syms, frame⟩ := by
   have hdv' : v[d] = dv := by rw [List.getElem?_eq_getElem hd] at hdv; exact Option.some.inj hdv
-  simp [execD, ins, R, M, exLd1, baseAddr, getG, getV, setV, setG, loadBytes, writeBack, hb, hdv', hd, hbl, hi, hload]
+  have hb' : g[b] = gb := by rw [List.getElem?_eq_getElem hbl] at hb; exact Option.some.inj hb
+  simp [execD, ins, R, M, exLd1, baseAddr, getG, getV, setV, setG, loadBytes, writeBack, hb', hdv', hd, hbl, hi, hload]
 
 /-- `VLD1 (Rb), [Vd.S4]` -/
 theorem execD_ld1_one (b d gb : Nat) (bs : List Nat)
@@ -231,8 +232,9 @@ theorem execD_ld1p_four (b n0 n1 n2 n3 gb : Nat) (bs : List Nat)
           (((v.set n0 (unlanes 8 (bs.take 16))).set n1 (unlanes 8 ((bs.drop 16).take 16))).set n2
             (unlanes 8 ((bs.drop 32).take 16))).set n3 (unlanes 8 ((bs.drop 48).take 16)),
           mem, syms, frame⟩ := by
+  have hb' : g[b] = gb := by rw [List.getElem?_eq_getElem hbl] at hb; exact Option.some.inj hb
   simp [execD, ins, M, L4, exLd1, baseAddr, listRegs, hc.1.symm, hc.2.1.symm, hc.2.2.symm, getG, setV, setG,
-    loadBytes, writeBack, hb, hbl, h0, h1, h2, h3, hload, List.range, List.range.loop, List.foldlM]
+    loadBytes, writeBack, hb', hbl, h0, h1, h2, h3, hload, List.range, List.range.loop, List.foldlM]
 
 /-- `VST1.P Vn.S[i], 4(Rb)` -/
 theorem execD_st1p_lane (b n i gb nv : Nat) (mem' : List Region) (hi : i < 4)
@@ -240,7 +242,8 @@ theorem execD_st1p_lane (b n i gb nv : Nat) (mem' : List Region) (hi : i < 4)
     (hstore : writeMem mem gb (lanes 8 4 (lane 32 i nv)) = .ok mem') :
     execD ⟨g, v, mem, syms, frame⟩ (ins .VST1P [R n, M b 4] [.S i, .none])
       = .ok ⟨g.set b ((gb + 4) % 2 ^ 64), v, mem', syms, frame⟩ := by
-  simp [execD, ins, R, M, exSt1, baseAddr, getG, getV, setG, storeBytes, writeBack, hb, hn, hbl, hi, hstore]
+  have hb' : g[b] = gb := by rw [List.getElem?_eq_getElem hbl] at hb; exact Option.some.inj hb
+  simp [execD, ins, R, M, exSt1, baseAddr, getG, getV, setG, storeBytes, writeBack, hb', hn, hbl, hi, hstore]
 
 /-- `VST1 Vn.S[i], (Rb)` -/
 theorem execD_st1_lane (b n i gb nv : Nat) (mem' : List Region) (hi : i < 4)
